@@ -675,5 +675,102 @@ theorem releaseNameplate_exact {s s1 : Sys} {app name side t b}
           refine ⟨rfl, by simp [modDb], Or.inr (Or.inr ⟨np, r0, hnp, hr0, Or.inr ⟨hany', by simp, by simp, ?_⟩⟩)⟩
           intro ht; simp [ht] at hu
 
+/-! ### snapshots of a `claim` that creates the nameplate -/
+
+/-- every snapshot taken between `s` and `s1` satisfies `P` -/
+def SnapNew (P : Chan → Prop) (s s1 : Sys) : Prop := ∀ p ∈ s1.snaps, p ∈ s.snaps ∨ P p.1
+
+theorem SnapNew.refl {P} (s : Sys) : SnapNew P s s := fun _ h => Or.inl h
+
+theorem SnapNew.noCommit {P} {s s1 s2 : Sys} (h : SnapNew P s s1) (hn : NoCommit s1 s2) : SnapNew P s s2 := by
+  unfold SnapNew; rw [hn.snaps]; exact h
+
+theorem SnapNew.commit {P} {s s1 : Sys} (h : SnapNew P s s1) (hp : P s1.db) : SnapNew P s s1.commit := by
+  unfold Sys.commit
+  split
+  · exact h
+  · intro p hp'
+    simp only [List.mem_append, List.mem_singleton] at hp'
+    rcases hp' with h' | rfl
+    · exact h p h'
+    · exact Or.inr hp
+
+theorem mailboxOpen_snapNew {P} {s : Sys} (s1 : Sys) (mb side : String) (t : Time) (hA : SnapNew P s s1)
+    (hp : P (s1.mailboxOpen mb side t).db) : SnapNew P s (s1.mailboxOpen mb side t) := by
+  unfold mailboxOpen at hp ⊢
+  split at hp <;> simp only [commit_db] at hp <;> exact SnapNew.commit (hA.noCommit ⟨rfl, rfl⟩) hp
+
+theorem openMailbox_snapNew {P} {s s1 s2 : Sys} {app mb side t r} (h : s1.openMailbox app mb side t = (s2, r))
+    (hA : SnapNew P s s1) (hp : P s2.db) : SnapNew P s s2 := by
+  unfold openMailbox at h
+  split at h
+  · simp only [Prod.mk.injEq] at h
+    obtain ⟨rfl, rfl⟩ := h
+    exact hA
+  · rename_i s0 e
+    have h0 : SnapNew P s s0 := hA.noCommit (addMailbox_noCommit e)
+    dsimp only at h
+    split at h <;>
+    · simp only [Prod.mk.injEq] at h
+      obtain ⟨rfl, rfl⟩ := h
+      simp only [commit_db] at hp
+      exact SnapNew.commit (mailboxOpen_snapNew _ _ _ _ h0 hp) (by simpa using hp)
+
+theorem claimCont_snapNew {P} {s s1 s2 : Sys} {app npid mb side t r}
+    (h : claimCont s1 app npid mb side t = (s2, r)) (hA : SnapNew P s s1) (h1 : P s1.db) (h2 : P s2.db) :
+    SnapNew P s s2 := by
+  unfold claimCont at h
+  dsimp only at h
+  have hc : SnapNew P s s1.commit := hA.commit h1
+  split at h
+  · rename_i s3 e
+    simp only [Prod.mk.injEq] at h
+    obtain ⟨rfl, rfl⟩ := h
+    exact openMailbox_snapNew e hc h2
+  · rename_i s3 e
+    simp only [Prod.mk.injEq] at h
+    obtain ⟨rfl, rfl⟩ := h
+    exact openMailbox_snapNew e hc h2
+  · rename_i s3 e
+    split at h <;>
+    · simp only [Prod.mk.injEq] at h
+      obtain ⟨rfl, rfl⟩ := h
+      exact openMailbox_snapNew e hc h2
+
+/-- when `claim_nameplate` finds no nameplate and does not fail with `IntegrityError`, EVERY state
+    it commits already contains the new nameplate row -/
+theorem claimNameplate_snaps_new {s s1 : Sys} {a n σ t fresh r}
+    (h : s.claimNameplate a n σ t fresh = (s1, r)) (hb : s.db.IdsBounded)
+    (hnone : s.db.findNameplate a n = none) (hr : r ≠ .integrity) :
+    SnapNew (fun d => (⟨s.db.nextNp, a, n, fresh⟩ : Nameplate) ∈ d.nameplates) s s1 ∧
+    (⟨s.db.nextNp, a, n, fresh⟩ : Nameplate) ∈ s1.db.nameplates := by
+  unfold claimNameplate at h
+  simp only [hnone] at h
+  split at h
+  · simp only [Prod.mk.injEq] at h
+    exact absurd h.2.symm hr
+  · rename_i s0 e
+    obtain ⟨d0, _⟩ := addMailbox_spec e
+    have hnp := d0.np
+    simp only [Chan.npPart, Prod.mk.injEq] at hnp
+    obtain ⟨n1, n2, n3⟩ := hnp
+    have hb0 : s0.db.IdsBounded := by
+      unfold Chan.IdsBounded; rw [n1, n2, n3]; exact hb
+    have hfresh : (s0.modDb (·.insNameplate a n fresh)).db.findNpSide s0.db.nextNp σ = none := by
+      have := hb0.findNpSide_fresh σ
+      simpa [Chan.findNpSide, Chan.insNameplate] using this
+    rw [claimTail_eq, hfresh] at h
+    dsimp only at h
+    obtain ⟨d1, _, _⟩ := claimCont_spec h
+    have hmid : (⟨s.db.nextNp, a, n, fresh⟩ : Nameplate) ∈
+        ((s0.modDb (·.insNameplate a n fresh)).modDb (·.insNpSide ⟨s0.db.nextNp, true, σ, t⟩)).db.nameplates := by
+      simp [Chan.insNpSide, Chan.insNameplate, n3]
+    have hfin : (⟨s.db.nextNp, a, n, fresh⟩ : Nameplate) ∈ s1.db.nameplates := by
+      have := d1.np
+      simp only [Chan.npPart, Prod.mk.injEq] at this
+      rw [this.1]; exact hmid
+    refine ⟨claimCont_snapNew h ?_ hmid hfin, hfin⟩
+    exact (SnapNew.refl s).noCommit ((addMailbox_noCommit e).trans ((NoCommit.modDb _ _).trans (NoCommit.modDb _ _)))
+
 end Sys.Np
 end Wormhole
